@@ -65,6 +65,9 @@ def valid_models(repo):
     ("species with integer mass", eam_model(body=EAM_BODY.replace("A.atomic_mass : 1.0", "A.atomic_mass : 12"))),
     ("block syntax in a formula", pair_model().replace("A/r + B", "if (r < 1.5) { A/r + B } else { B }")),
     ("modulus and comparison operators in a formula", pair_model().replace("A/r + B", "(A % 3)/r + B*(r >= 1)")),
+    # exprtk names are case-insensitive: functions may be called in any capitalisation
+    ("functions called in another capitalisation", pair_model().replace("A/r + B", "A/r + B + 0*AS.Constant(r, 1.0) + 0*PYMATH.EXP(-r) + 0*Tab(r)")),
+    ("custom form called in another capitalisation", pair_model().replace("f(r, A, B) = A/r + B", "f(r, A, B) = A/r + B\ng(r, A) = F(r, A, 1.0)").replace("B-B : >0", "A-C : g 2.0\nB-B : >0")),
     ("key spacing", pair_model().replace("A-B :", "A - B =").replace("f(r, A, B) =", "f( r,A , B ) :")),
   ]
   return out
